@@ -5,6 +5,7 @@ import (
 	"fmt"
 	"gopkg.in/src-d/hercules.v10/verifharness/hv"
 	"math/rand"
+	"reflect"
 	"strings"
 
 	"gopkg.in/src-d/hercules.v10/leaves"
@@ -109,6 +110,23 @@ func main() {
 			panic(err)
 		}
 		r2 := back.(leaves.BurndownResult)
+		// what was read back can be written and read again without change
+		func() {
+			defer func() {
+				if r := recover(); r != nil {
+					hv.Fail("burndown-second-roundtrip", fmt.Sprintf(`{"matrix":%q}`, fmt.Sprint(m)), fmt.Sprintf("writing a result that was read back panicked: %v", r))
+				}
+			}()
+			var b2 bytes.Buffer
+			if err := b.Serialize(r2, true, &b2); err != nil {
+				hv.Fail("burndown-second-roundtrip", fmt.Sprintf(`{"matrix":%q}`, fmt.Sprint(m)), "writing a result that was read back failed: "+err.Error())
+				return
+			}
+			again, err := b.Deserialize(b2.Bytes())
+			if err != nil || !reflect.DeepEqual(again, back) {
+				hv.Fail("burndown-second-roundtrip", fmt.Sprintf(`{"matrix":%q}`, fmt.Sprint(m)), fmt.Sprintf("the result changes when it is written and read a second time (error %v)", err))
+			}
+		}()
 		// Go-side statement (oracle): same dimensions, negative history cells clamped to zero, everything else equal
 		for i := range m {
 			bad := len(r2.GlobalHistory) != len(m) || len(r2.GlobalHistory[i]) != len(m[i])
